@@ -36,6 +36,8 @@ func genC16(r *simrt.RNG, tier string, variant int) Plan {
 			op := Op{Kind: "rev", Client: ci, Tok: tok, N: r.Intn(3), Hold: r.Bool(0.5)}
 			if r.Bool(0.2) {
 				op.Kind = "call"
+			} else if r.Bool(0.2) {
+				op.Kind, op.N = "revsub", Pick(r, []int{0, 2, 10, 30}) // the server subscribes to a stream of the client
 			} else if r.Bool(0.15) {
 				op.Kind, op.N = "notifyrev", 0 // a notification whose handler calls back
 			}
@@ -50,6 +52,14 @@ func genC16(r *simrt.RNG, tier string, variant int) Plan {
 		p.Clients[0].NoReconnect = false
 		for i := 0; i < 1+r.Intn(3); i++ {
 			p.Ops = append(p.Ops, Op{Kind: "rev", Client: 0, Tok: tok, N: r.Intn(2), Hold: r.Bool(0.3), Phase: 1})
+			tok++
+		}
+		if r.Bool(0.5) {
+			// a reverse stream whose client-side producer outlives the old connection,
+			// and a new reverse stream on the re-established one
+			p.Ops = append(p.Ops, Op{Kind: "revsub", Client: 0, Tok: tok, N: 12, Hold: true})
+			tok++
+			p.Ops = append(p.Ops, Op{Kind: "revsub", Client: 0, Tok: tok, N: Pick(r, []int{3, 10}), Phase: 1})
 			tok++
 		}
 		// black holes are excluded: a server without a read timeout cannot notice a
@@ -76,7 +86,7 @@ func runC16(e *Env, p *Plan) {
 	for _, op := range p.Ops {
 		op := op
 		if op.Phase == 0 {
-			if len(p.Faults) > 0 && op.Kind == "rev" && op.Client == 0 && op.Tok%2 == 1 {
+			if len(p.Faults) > 0 && (op.Kind == "rev" && op.Tok%2 == 1 || op.Kind == "revsub" && op.Hold) && op.Client == 0 {
 				// this call's client-side handler finishes only after the reconnect,
 				// while later reverse calls are in flight on the new connection
 				g := make(chan struct{})
@@ -142,6 +152,37 @@ func runC16(e *Env, p *Plan) {
 				e.Violate("C16.reverse-call-fails-not-blocks", "the notification handler of tok=%d (client %s) is still blocked in its reverse call", t.ID, cp.Name)
 			} else if started > 0 && cp.Kind == "ws" && p.Servers[0].Reverse && !faultyConn[cp.Name] && val != cp.Name+"/"+itoa(op.Tok) {
 				e.Violate("C16.reverse-identity", "reverse call from the notification handler of tok=%d on healthy client %s returned %q", t.ID, cp.Name, val)
+			}
+			continue
+		}
+		if op.Kind == "revsub" && op.Client < len(p.Clients) {
+			cp := p.Clients[op.Client]
+			t := e.Tok(op.Tok)
+			t.mu.Lock()
+			started, ended := len(t.HCtx), len(t.HEnd)
+			ret, val, rerr := t.Returned, t.Val, t.RetErr
+			t.mu.Unlock()
+			e.Probe("reverse-subscriptions")
+			switch {
+			case started > ended:
+				e.Violate("C16.reverse-call-fails-not-blocks", "the server handler of tok=%d (client %s) is still blocked on its reverse subscription", t.ID, cp.Name)
+			case !ret:
+				e.Violate("C16.hang", "forward call tok=%d (reverse subscription) on %s never returned", t.ID, cp.Name)
+			case rerr != nil:
+				if !(faultyConn[cp.Name] && (isConnErr(rerr) || strings.Contains(rerr.Error(), "reverr"))) {
+					e.Violate("C16.reverse-identity", "reverse subscription tok=%d on healthy client %s failed: %v", t.ID, cp.Name, rerr)
+				}
+			case cp.Kind != "ws" || !p.Servers[0].Reverse:
+				if val != "norev" {
+					e.Violate("C16.absent-without-ws-or-option", "tok=%d over %s: a reverse client was present: %q", t.ID, cp.Kind, val)
+				}
+			default:
+				parts := strings.SplitN(val, ":", 2)
+				if len(parts) != 2 || parts[1] != "" {
+					e.Violate("C16.reverse-identity", "reverse subscription tok=%d of client %s: the server received a value this stream's handler never sent: %q (another stream's values arrived on it)", t.ID, cp.Name, val)
+				} else if !faultyConn[cp.Name] && parts[0] != itoa(op.N) {
+					e.Violate("C16.reverse-identity", "reverse subscription tok=%d on healthy client %s: the server received %s of %d values", t.ID, cp.Name, parts[0], op.N)
+				}
 			}
 			continue
 		}
